@@ -270,8 +270,22 @@ def run(ctx: Ctx):
         canv.run_guard(p, "C06.2a", floor=9),
         canv.run_canv(p, "C06.2b", floor=35, exceptions=CANV_EXCEPTIONS),
         fresh.run_fresh(p, "C06.2c", ["urwid.canvas"], floor=30),
+        canv.run_depends(p, "C06.2d", floor=8),
         rule_cache_key(ctx),
         rule_listbox_body(ctx),
         rule_cascade(ctx),
     ]
     return out
+
+
+from ..mutants import Mut  # noqa: E402
+
+MUTANTS = [
+    Mut("set-text-no-invalidate", "urwid/widget/text.py", "Text.set_text", "        self._invalidate()\n", "", "INV|widget.text.Text.set_text"),
+    Mut("pad-bottom-shared-shards", "urwid/canvas.py", "CompositeCanvas.pad_trim_top_bottom", "            if orig_shards is self.shards:\n                self.shards = self.shards.copy()\n", "", "FRESHLIST|canvas.CompositeCanvas.pad_trim_top_bottom"),
+    Mut("padding-zero-cols-no-depends", "urwid/widget/padding.py", "Padding.render", "            canv = CompositeCanvas(canv)\n            canv.set_depends([self._original_widget])\n            return canv", "            return CompositeCanvas(canv)", "DEPENDS|widget.padding.Padding.render"),
+    Mut("trim-unguarded", "urwid/canvas.py", "CompositeCanvas.trim_end", "        if self.widget_info:\n            raise self._finalized_error\n", "", "GUARD|"),
+    Mut("filler-mutates-rendered", "urwid/widget/filler.py", "Filler.render", "        canv = CompositeCanvas(canv)\n", "", "CANV|widget.filler.Filler.render"),
+    Mut("cache-rows-ignores-focus-mask", "urwid/widget/widget.py", "cache_widget_rows", "        focus = focus and not ignore_focus\n", "", "SIB|"),
+    Mut("twin-pad-copy-slice", "urwid/canvas.py", "CompositeCanvas.pad_trim_top_bottom", "self.shards = self.shards.copy()", "self.shards = self.shards[:]", twin=True),
+]
